@@ -194,6 +194,9 @@ func (w *serverHandler) handler(conn *ws.Conn) {
 		return
 	}
 	<-sess.CloseNotify()
+	// returning closes the hijacked connection: let a graceful close finish first (it still
+	// waits for the running handlers and writes their replies); a second Close just waits for it
+	sess.Close()
 }
 
 var (
